@@ -167,6 +167,8 @@ def run(m, tier):
                          "Include_Stmt nodes collected before it come first in `content` (shared with C08.R4)"))
     from rules import reader_interp
     results.append(reader_interp.include_rule(m, "C13.R10", tier))
+    from rules import prog_rules
+    results.append(prog_rules.include_rule(m, "C13.R11", tier))
     expl = ("Decides structural clauses of C13: the include search visits self.include_dirs in order and stops at the first existing "
             "file; an unresolved INCLUDE line is returned as an ordinary item and Include_Stmt is tried at every position (per call "
             "site of the block engine and around program units, in both directive modes); the nested reader gets the path, the "
